@@ -34,7 +34,7 @@
 #include <omp.h>
 
 // Returns true if a is closer to cutoff than a/2.
-static inline int closer(rci_t a, int cutoff) { return 3 * a < 4 * cutoff; }
+static inline int closer(rci_t a, int cutoff) { return 3 * a < 4 * cutoff || a < 2 * m4ri_radix; }
 
 mzd_t *_mzd_addmul_mp4(mzd_t *C, mzd_t const *A, mzd_t const *B, int cutoff) {
   /**
